@@ -28,7 +28,7 @@ ASSUMPTIONS = [
     "system level: run_mode with a faulty sweep / override key must raise with an empty probe call log",
 ]
 COMPONENTS = {"real": ["pyxel Processor.has/get/set, _get_obj_att, eval_entry, Observation.validate_steps, apply_overrides, run_mode"], "stub": []}
-BUDGET = {"quick": {"n": 960, "wall": 100, "determinism": 4}, "thorough": {"n": 24000, "wall": 1500, "determinism": 12}}
+BUDGET = {"quick": {"n": 960, "wall": 100, "determinism": 4}, "thorough": {"n": 200000, "wall": 1500, "determinism": 12}}
 BAD = ["other-detector-field", "misspelt-field", "misspelt-section", "truncated", "extended", "wrong-group", "wrong-model", "arguments-typo", "undeclared-arg", "model-as-key"]
 REQUIRED_REACH = ["valid_on_other_detector_first", "duplicate_model_names", "op:set", "op:get", "op:has", "sys:sweep-bad", "sys:override-bad", "sys:sweep-disabled-model", "sys:sweep-ok", "sys:override-ok", "text_values", "set_on_copy", "sweep_multi_dask", "sweep_multi_sequential"] + ["bad:" + b for b in BAD]
 
